@@ -358,14 +358,22 @@ def run(ctx):
                        "non-trivial = boundary-valued leaf with <=3 elements / non-canonical encoding decoded / from_value probe / tree")
     # thread-pair independence first (LINE events are switched off again before the enumeration)
     from checks import pair_ops  # noqa: PLC0415
-    from mc import pairs  # noqa: PLC0415
+    from mc import firstuse, pairs  # noqa: PLC0415
 
+    # first use in a process before anything else touches the library (the workers must be pristine)
+    fu_ops = [["fu_item_decode", "0102b10400010203"], ["fu_item_sml", "<L <U1 1> <A \"x\">>"], ["fu_item_value", [1, "x", [70000]]]]
+    firstuse.run_part(ctx, fu_ops, "C14", 2 if ctx.thorough else 1)
     ops = [["item", d] for d in pair_ops.LEAVES[:4] + pair_ops.TREES[:1]] + [["from_value", 250], ["from_value", [1, "x", [70000]]]]
     pair_execs = pairs.run_part(ctx, ops, "C14", 2 if ctx.thorough else 1)
     ctx.run_cases(check_case, cases(ctx), "c14", chunk=32)
 
 
 def replay(ctx, detail):
+    if isinstance(detail.get("case"), dict) and detail["case"].get("part") == "first-use":
+        from mc import firstuse  # noqa: PLC0415
+
+        firstuse.replay(ctx, detail["case"], "C14")
+        return
     if isinstance(detail.get("case"), dict) and detail["case"].get("part") == "pair":
         from mc import pairs  # noqa: PLC0415
 
